@@ -203,6 +203,24 @@ def run_case(case):
                     bad(method, "scalar_given_vector_x", "scalar_vecx", {"got": got, "expected": e1, "given": gs[i]})
             except Exception as e:
                 bad(method, "exception", "scalar_vecx", {"type": type(e).__name__, "msg": str(e)[:200]})
+    # outer evaluation: a column of conditioning values against a row of x (numpy broadcasting of the template's parameters):
+    # table[j, i] = template(theta(g_j)).method(x_i); m == n (a silent "diagonal only" would have the wrong shape) and m != n
+    for method in ("pdf", "cdf", "icdf"):
+        arg = ps if method == "icdf" else xs
+        f = getattr(cond, method)
+        for rows in (len(gs), 3):
+            col = gs[:rows].reshape(-1, 1)
+            e_tab = np.array([[float(getattr(refs[j], method)(a)) for a in arg] for j in range(rows)])
+            try:
+                count["calls"] += 1
+                got = np.asarray(f(arg, col), dtype=float)
+                if got.shape == e_tab.shape[1:] and all(np.array_equal(e_tab[0], r_, equal_nan=True) for r_ in e_tab) and close(got, e_tab[0]):
+                    pass    # dependence functions that return a plain scalar for any input do not broadcast: one row is the template's answer
+                elif got.shape != e_tab.shape or not close(got, e_tab):
+                    bad(method, "column_given_outer_table", f"column{rows}x1", {"got_shape": list(got.shape), "expected_shape": list(e_tab.shape),
+                                                                                  "got": got, "expected": e_tab})
+            except Exception as e:
+                bad(method, "exception", f"column{rows}x1", {"type": type(e).__name__, "msg": str(e)[:200]})
     # a caller's buffer reused for the next block of conditioning values (same object, new contents)
     for method in ("pdf", "cdf", "icdf"):
         arg = ps if method == "icdf" else xs
